@@ -30,6 +30,8 @@ type knode struct {
 }
 type snode struct {
 	by, msg int // leaf: who signed which message (ids); by<0: garbage
+	garb     int // which garbage: 0 random bytes, 1 nothing at all, 2 the honest signature plus one byte, 3 minus its last byte
+	orig     int
 	kids    []*snode
 	leaf    bool
 }
@@ -89,6 +91,16 @@ func init() {
 func (s *snode) bytes(r *rng.R) []byte {
 	if s.leaf {
 		if s.by < 0 {
+			switch s.garb {
+			case 1:
+				return nil
+			case 2:
+				sig, _ := pool[s.orig].Sign(msgs[s.msg])
+				return append(sig, byte(r.Intn(256)))
+			case 3:
+				sig, _ := pool[s.orig].Sign(msgs[s.msg])
+				return sig[:len(sig)-1]
+			}
 			return r.Bytes(1 + r.Intn(70))
 		}
 		sig, _ := pool[s.by].Sign(msgs[s.msg])
@@ -144,8 +156,11 @@ func mutate(r *rng.R, s *snode) string {
 			x.msg = r.Intn(len(msgs))
 			return "other-message"
 		default:
-			x.by = -1
-			return "garbage"
+			if x.by >= 0 {
+				x.orig = x.by
+			}
+			x.by, x.garb = -1, r.Intn(4)
+			return fmt.Sprintf("garbage-%d", x.garb)
 		}
 	}
 	switch r.Intn(5) {
